@@ -28,6 +28,8 @@ fn c05_optimised_and_plain_engines_agree() {
         "|https://a.io/xa|", "|https://a.io/xb|", "|https://a.io/xc|",
         // right-anchored rules that share their index token; a pattern-less multi-domain rule in a bucket that has rules of its own
         "/ads/a.gif|", "/ads/b.gif|", "/ads/c.gif|", "*$image,domain=foo.com|bar.com", "banner1$domain=foo.com", "banner2$domain=foo.com", "banner3$domain=bar.com",
+        // left-anchored rules that share all their tokens, the longer ones first in the fused rule
+        "|https://ab.cd/", "|https://ab.cd/ab/cd/ab", "|https://ab.cd/ab/cd/ab/cd/ab", "|https://ab.cd/ab/cd/ab/cd/ab/cd/ab",
         // exact-URL rules of equal length that differ in a one-letter token only (they share their bucket)
         "|https://example.com/ads/a.js|", "|https://example.com/ads/b.js|", "|https://example.com/ads/c.js|",
     ];
@@ -40,6 +42,7 @@ fn c05_optimised_and_plain_engines_agree() {
         "https://b.io/sep/s/", "https://b.io/sep/s", "https://b.io/wild/1/w", "https://b.io/wild/w", "https://b.io/csp1",
         "https://a.io/xa", "https://a.io/xb", "https://a.io/xc", "https://a.io/xd",
         "https://x.io/ads/a.gif", "https://x.io/ads/b.gif", "https://x.io/ads/c.gif", "https://x.io/ads/d.gif", "https://x.io/pic.png", "https://x.io/banner1", "https://x.io/banner3",
+        "https://ab.cd/", "https://ab.cd/x", "https://ab.cd/ab/cd/ab", "https://ab.cd/ab/cd/abx", "https://ab.cd/ab/cd/ab/cd/ab/", "https://ab.ce/",
         "https://example.com/ads/a.js", "https://example.com/ads/b.js", "https://example.com/ads/c.js", "https://example.com/ads/d.js", "https://example.com/ads/a.js?x",
     ] {
         for (t, src) in [("image", "https://news.example/"), ("script", "https://news.example/"), ("document", "https://news.example/"), ("image", "https://foo.com/"), ("image", "https://bar.com/"), ("script", "https://foo.com/")] {
